@@ -217,4 +217,21 @@ CLAIMS = {
         'technique': 'static analysis: whole-program effect inventory with a verified ownership table, sibling '
                      'agreement __init__/clear, CFG must-pass-through for entry points (ast only)',
     },
+    'C14': {
+        'text': "A static race/ownership analysis over two thread roles derived from the code: the student role (what "
+                "Sandbox._execute does after the injected SystemExit: its SystemExit/BaseException handlers, else arm "
+                "and tail, closed over self-method calls) and the grader role (the TimeoutError arm of "
+                "_execute_with_timeout). The transitive write sets of both roles over Sandbox attributes and "
+                "report.feedback are computed; every attribute written by the abandoned student role that the grader "
+                "or the next execution also writes must be behind a lock or an abandonment fence; the number of "
+                "_capture_exception sites per timed-out execution must be one; timeout() must join once with the "
+                "finite duration, never block otherwise, terminate and raise TimeoutError; the timeout arm must "
+                "release through _stop_mocking.",
+        'note': _NOTE + "Today's tree has no synchronisation at all: ten conflicting attributes, the two capture "
+                        "sites and the direct _stop_patches call are recorded known findings (confirmed at run time); "
+                        "any new conflicting write is a violation. Not decided: wall-clock bounds, behaviour of "
+                        "PyThreadState_SetAsyncExc for code blocked in C.",
+        'technique': 'static analysis: thread-role derivation from the call graph, transitive effect (write-set) '
+                     'analysis, recognised-synchronisation check (ast only)',
+    },
 }
